@@ -1,27 +1,31 @@
 import Litep2pVerif.Common.Parse
 import Litep2pVerif.Model.Kad.Store
-/-! Line-protocol driver for the `MemoryStore` model (C17). The clock stands at 1000. -/
+/-! Line-protocol driver for the `MemoryStore` model (C17). The clock starts at 1000 and moves by `adv n`. -/
 namespace Litep2pVerif.Driver.C17
 open Litep2pVerif Litep2pVerif.Kad.Store Parse
 
 structure State where
   cfg : Option Cfg := none
   store : Store := {}
+  now : Nat := 1000
 
 def init : State := {}
-
-def now : Nat := 1000
 
 def showProvs (ps : List Prov) : String :=
   "[" ++ joinWith "," (ps.map fun p => toString p.peer ++ ":" ++ joinWith "+" (p.addrs.map toString)) ++ "]"
 
 def step (st : State) (line : String) : State × String :=
   let ts := tokens line
+  let now := st.now
   match ts, st.cfg with
+  | ["adv", n], _ =>
+    match n.toNat? with
+    | some n => ({ st with now := st.now + n }, "ok")
+    | none => (st, "bad-op")
   | ["cfg", a, b, c, d, e, f], _ =>
     match a.toNat?, b.toNat?, c.toNat?, d.toNat?, e.toNat?, f.toNat? with
     | some a, some b, some c, some d, some e, some f =>
-      ({ cfg := some ⟨a, b, c, d, e, f⟩, store := {} }, "ok")
+      ({ cfg := some ⟨a, b, c, d, e, f⟩, store := {}, now := 1000 }, "ok")
     | _, _, _, _, _, _ => (st, "bad-op")
   | ["put", k, vlen, tag, exp], some cfg =>
     let exp? : Option (Option Nat) := if exp = "none" then some none else exp.toNat?.map some
